@@ -28,6 +28,8 @@ const (
 	ErrHAMTSizeInvalid errorType = "hamt size should be a power of two"
 	// ErrMissingLinkName indicates a link in a HAMT had no Name property (required for all HAMTs)
 	ErrMissingLinkName errorType = "missing link name"
+	// ErrShardWidthMismatch indicates a child shard whose link name prefix width differs from its parent's
+	ErrShardWidthMismatch errorType = "child shard width differs from its parent"
 )
 
 // ErrInvalidLinkName indicates a link's name was too short for a HAMT
